@@ -98,6 +98,7 @@ MANIFEST = dict(
     text="Theorem subst_narrows (Props/C05.lean): for every schema S, plain value v and value w, if S % v = S' then S' "
          "accepts w implies S accepts w — at every nesting depth, all list forms, dicts, unions, aliases and custom types; "
          "subst_narrows_float_counterexample shows the excluded case. Tie: substitution outcome and validator verdict "
-         "correspondences; search: generated / boundary / perturbed probes on the real code.",
+         "correspondences; search: generated / boundary / perturbed probes on the real code."
+         " Source pins: the normalised text of every anchor file is compared with the text the model was last validated against; a changed file is a broken obligation (no-failing-input-found unless the search finds an input).",
     note="Partial: NoFixedFloat — the full statement is false of the code (K7: re-substituting a close float re-centres "
          "the tolerance window). Trusted: Lean kernel + standard axioms, hand models (sampling tie), codec.")
